@@ -48,6 +48,9 @@ CHECKS = {
  "C12": ("exploration", "bounded-exhaustive enumeration of path attribute x path shape x origin x working-directory shape, against an anchoring reference; non-path positions and idempotence checked differentially",
          "10 path-bearing attribute kinds x 13 path shapes x 7 origins (main, override, include depth 1 and 2, extended base in another directory, extended base used from an included file, one base shared by the main project and an included project) x 3 working-directory shapes, resolution on (and off for main/override): the loaded value must be exactly what the reference of Appendix A.5 gives (absolute, URL-like for build contexts, Windows-absolute for mounts and secret/config files left alone; ~ expanded; everything else joined with the directory of the file it came from). `./p` placed in 14 non-path positions must never be anchored; re-resolving the rendered model must change nothing.",
          "Trusted: the reference in props/c12.go. HOME set; relative working directory not exercised.", "§4 C12, App. A.5", "E3 E4 E5"),
+ "C03": ("exploration", "bounded-exhaustive enumeration of short-form grammars (complete products over stated domains) differentially against reference long forms on the real loader, alone and as the base of an override; near misses must be rejected",
+         "The port grammar (4 IPs x 5 host forms x 3 container forms x 4 protocols, bare integers), the volume grammar (9 sources x 3 targets x all mode sets of <=2 from 8), devices, secrets/configs by name, build/extends/healthcheck strings, env_file and label_file spellings, depends_on and networks lists, external {name}, KEY[=VALUE] lists vs mappings with 8 value kinds at 7 positions, string-or-list positions, command/entrypoint strings over all sequences of <=3 quoted/escaped words, durations and byte sizes are enumerated completely; each short form is loaded next to the long form produced by a reference expander written from the Compose grammar and the two projects are compared with go-cmp; 17 override scenarios check that short and long bases merge alike; near misses of every grammar must yield an error.",
+         "Trusted: the reference expanders in props/c03.go. Undefined combinations are totality-only. Port lists compared as sets; nil and pointer-to-empty optional blocks identified.", "§4 C03", "E3 E5"),
 }
 
 NOT_YET = {}
